@@ -89,8 +89,8 @@ theorem linked_head_congr (r r' : Rec) (u u' : Nat) (K : List Nat)
 /-- **C09 (2-opt).**  For every `n`, every single `n`-cycle `r` and every admitted pair
 `first ≠ second`, `_local_operator` returns a single `n`-cycle (the stretch `first … second` of the
 tour is reversed in place). -/
-theorem twoOpt_preserves (n : Nat) (r : Rec) (a b : Nat) (ha : a < n) (hb : b < n) (hab : a ≠ b)
-    (ht : IsTour r n) : IsTour (localOp2 n r a b) n := by
+theorem twoOpt_preservesC (sub : Nat) (hsub : sub ≤ 1) (n : Nat) (r : Rec) (a b : Nat) (ha : a < n) (hb : b < n)
+    (hab : a ≠ b) (ht : IsTour r n) : IsTour (localOp2C sub n r a b) n := by
   obtain ⟨seq, hperm, hcyc⟩ := ht
   have hmem : ∀ z, z ∈ seq ↔ z < n := fun z => hperm.mem_iff.trans List.mem_range
   -- rotate the cycle so that it starts at `first`
@@ -131,7 +131,7 @@ theorem twoOpt_preserves (n : Nat) (r : Rec) (a b : Nat) (ha : a < n) (hb : b < 
     exact hsub.nodup hnd
   have hlastS : (a :: (M ++ [b])).getLast? = some b := by
     rw [List.getLast?_eq_some_iff]; exact ⟨a :: M, by simp⟩
-  have hfuel : (M ++ [b]).length ≤ n := by
+  have hfuel : (M ++ [b]).length ≤ n - sub := by
     have : (a :: (M ++ b :: Y')).length = (M ++ [b]).length + 1 + Y'.length := by
       simp only [List.length_cons, List.length_append, List.length_nil]; omega
     omega
@@ -145,13 +145,13 @@ theorem twoOpt_preserves (n : Nat) (r : Rec) (a b : Nat) (ha : a < n) (hb : b < 
     · -- `second` is the predecessor of `first`: the whole tour is reversed
       subst hY
       have hba : r b = a := by simpa [Linked] using htail
-      have hpred : pred n r a = b := pred_of_cycle n r _ hperm1 hcyc1 b a hb hba
-      have hop : localOp2 n r a b = revLoop r b n a (upd (upd r a b) a b) := by
-        simp [localOp2, hpred, hba]
+      have hpred : argsort n r a = b := argsort_of_cycle n r _ hperm1 hcyc1 b a hb hba
+      have hop : localOp2C sub n r a b = revLoop r b (n - sub) a (upd (upd r a b) a b) := by
+        simp [localOp2C, hpred, hba]
       rw [hop]
-      obtain ⟨h1, h2⟩ := revLoop_spec r b (M ++ [b]) a n (upd (upd r a b) a b) hchain hndS hlastS hfuel
+      obtain ⟨h1, h2⟩ := revLoop_spec r b (M ++ [b]) a (n - sub) (upd (upd r a b) a b) hchain hndS hlastS hfuel
       have haT : a ∉ M ++ [b] := (List.nodup_cons.mp hndS).1
-      have hra : revLoop r b n a (upd (upd r a b) a b) a = b := by rw [h2 a haT]; simp [upd]
+      have hra : revLoop r b (n - sub) a (upd (upd r a b) a b) a = b := by rw [h2 a haT]; simp [upd]
       rw [List.append_nil]
       have hrev : (a :: (M ++ [b])).reverse = b :: (M.reverse ++ [a]) := by simp
       rw [hrev] at h1 ⊢
@@ -168,7 +168,7 @@ theorem twoOpt_preserves (n : Nat) (r : Rec) (a b : Nat) (ha : a < n) (hb : b < 
         exact htail.2.1
       have hpamem : pa ∈ a :: (M ++ b :: (Z ++ [pa])) := by simp
       have hpan : pa < n := (hmem pa).mp hpamem
-      have hpred : pred n r a = pa := pred_of_cycle n r _ hperm1 hcyc1 pa a hpan hpa_a
+      have hpred : argsort n r a = pa := argsort_of_cycle n r _ hperm1 hcyc1 pa a hpan hpa_a
       have hpab : pa ≠ b := by
         intro e
         have := hnd
@@ -181,11 +181,11 @@ theorem twoOpt_preserves (n : Nat) (r : Rec) (a b : Nat) (ha : a < n) (hb : b < 
         intro e
         have hbm : b ∈ a :: (M ++ b :: (Z ++ [pa])) := by simp
         exact hpab (cycleOf_inj r _ hcyc1 hnd hpamem hbm (by rw [hpa_a, e]))
-      have hop : localOp2 n r a b = revLoop r b n a (upd (upd r pa b) a (r b)) := by
-        simp [localOp2, hpred, hpab, hrb]
+      have hop : localOp2C sub n r a b = revLoop r b (n - sub) a (upd (upd r pa b) a (r b)) := by
+        simp [localOp2C, hpred, hpab, hrb]
       rw [hop]
-      obtain ⟨h1, h2⟩ := revLoop_spec r b (M ++ [b]) a n (upd (upd r pa b) a (r b)) hchain hndS hlastS hfuel
-      generalize hres : revLoop r b n a (upd (upd r pa b) a (r b)) = res at h1 h2
+      obtain ⟨h1, h2⟩ := revLoop_spec r b (M ++ [b]) a (n - sub) (upd (upd r pa b) a (r b)) hchain hndS hlastS hfuel
+      generalize hres : revLoop r b (n - sub) a (upd (upd r pa b) a (r b)) = res at h1 h2
       have haT : a ∉ M ++ [b] := (List.nodup_cons.mp hndS).1
       have hZT : ∀ z ∈ Z ++ [pa], z ∉ M ++ [b] ∧ z ≠ a := by
         intro z hz
@@ -236,6 +236,11 @@ theorem twoOpt_preserves (n : Nat) (r : Rec) (a b : Nat) (ha : a < n) (hb : b < 
         intro z hz; rw [List.dropLast_concat] at hz; exact hres_Z z hz)
       simpa using this
 
+
+/-- **C09 (2-opt).** the instance at the source's trip count `range(num_loc)` -/
+theorem twoOpt_preserves (n : Nat) (r : Rec) (a b : Nat) (ha : a < n) (hb : b < n) (hab : a ≠ b)
+    (ht : IsTour r n) : IsTour (localOp2 n r a b) n :=
+  twoOpt_preservesC 0 (by omega) n r a b ha hb hab ht
 
 /-- every move `get_mask` admits (`first ≠ second`, both in range) keeps a tour a tour, so does every
 sequence of such moves -/
@@ -341,8 +346,9 @@ theorem koptMove_preserves (n : Nat) (r : Rec) (sel left right : List Nat) (t0 :
     | cons a R' => simp at hv ⊢; exact hv.symm
   have := relink_cycle n r t0 segs R (sel.map r) (scatterL r left right) hne hperm hcyc hlk hrec0 hsel hrn
   have hop : localOpK n r sel left right =
-      koptLoop (pred n r) (sel.map r) (n - 2) t0 (scatterL r left right) := by
-    simp only [localOpK, hhead]
+      koptLoop (argsort n r) (sel.map r) (n - 2) t0 (scatterL r left right) := by
+    simp only [localOpK, localOpKC, hhead]
+    rfl
   rw [hop]
   exact this
 
